@@ -500,6 +500,7 @@ func streamIcpt(c *Ctx) {
 	c.exhaust = true
 	c.Note("all interceptor lists over {1,2,3,nil} up to length %d; all compositions into consecutive groups for lists up to 4; %d random nestings (depth<=3) per list", maxLen, reps)
 	icptSharedAndMixedProbes(c)
+	icptGroupShapeProbes(c)
 	// slices with spare capacity / sub-slices of one backing array (aliasing hazards)
 	for _, side := range sides {
 		for _, kind := range kinds {
@@ -676,6 +677,101 @@ func icptSharedAndMixedProbes(c *Ctx) {
 			c.Count("mixed-kinds-probe")
 			if got != "1,2,3,4 / 4,3,2,1" {
 				c.Fail("icpt-order", fmt.Sprintf("function-style and struct-style interceptors mixed [fn1 S2 nil fn3 S4], %s, %s, unary call", shape, side), got, "declaration order, first outermost: want 1,2,3,4 on the way in and 4,3,2,1 on the way out")
+			}
+		}
+	}
+}
+
+// icptGroupShapeProbes (oracle only):
+//
+//	(a) a base group built with WithOptions from a slice with spare capacity, extended twice
+//	    (WithOptions(base, B) and WithOptions(base, C)): each extension keeps its own tail;
+//	(b) groups of every size 1..10 as the first and as a later WithInterceptors group: nothing
+//	    is dropped at any size.
+func icptGroupShapeProbes(c *Ctx) {
+	run := func(side, kind string, opts []connect.Option, log *eventLog) string {
+		mk := func(hopts ...connect.HandlerOption) http.Handler {
+			if kind == "unary" {
+				return connect.NewUnaryHandler("/s/m", func(context.Context, *connect.Request[emptypb.Empty]) (*connect.Response[emptypb.Empty], error) {
+					return connect.NewResponse(&emptypb.Empty{}), nil
+				}, hopts...)
+			}
+			return connect.NewClientStreamHandler("/s/m", func(ctx context.Context, s *connect.ClientStream[emptypb.Empty]) (*connect.Response[emptypb.Empty], error) {
+				return connect.NewResponse(&emptypb.Empty{}), nil
+			}, hopts...)
+		}
+		var cl *connect.Client[emptypb.Empty, emptypb.Empty]
+		if side == "client" {
+			var copts []connect.ClientOption
+			for _, o := range opts {
+				copts = append(copts, o)
+			}
+			cl = connect.NewClient[emptypb.Empty, emptypb.Empty](&inprocClient{h: mk()}, "http://h/s/m", copts...)
+		} else {
+			var hopts []connect.HandlerOption
+			for _, o := range opts {
+				hopts = append(hopts, o)
+			}
+			cl = connect.NewClient[emptypb.Empty, emptypb.Empty](&inprocClient{h: mk(hopts...)}, "http://h/s/m")
+		}
+		log.reset()
+		var err error
+		if kind == "unary" {
+			_, err = cl.CallUnary(context.Background(), connect.NewRequest(&emptypb.Empty{}))
+		} else {
+			s := cl.CallClientStream(context.Background())
+			_, err = s.CloseAndReceive()
+		}
+		if err != nil && !errors.Is(err, context.Canceled) {
+			return "call-failed: " + err.Error()
+		}
+		return idsOf(log.events, "in")
+	}
+	for _, side := range []string{"client", "handler"} {
+		for _, kind := range []string{"unary", "stream"} {
+			// (a)
+			log := &eventLog{}
+			backing := make([]connect.Option, 1, 4)
+			backing[0] = connect.WithInterceptors(&logIcpt{id: 1, log: log})
+			base := connect.WithOptions(backing...)
+			first := connect.WithOptions(base, connect.WithInterceptors(&logIcpt{id: 2, log: log}))
+			second := connect.WithOptions(base, connect.WithInterceptors(&logIcpt{id: 3, log: log}))
+			for i, tc := range []struct {
+				opt  connect.Option
+				want string
+			}{{first, "1,2"}, {second, "1,3"}, {first, "1,2"}} {
+				got := run(side, kind, []connect.Option{tc.opt}, log)
+				c.Count("group-shape-probe")
+				if got != tc.want {
+					c.Fail("icpt-alias", fmt.Sprintf("one base option group extended twice with WithOptions(base, X): extension #%d used on a %s, %s call", i+1, side, kind), got, "each extension is the base followed by its own tail: want "+tc.want)
+				}
+			}
+			// (b)
+			for n := 1; n <= 10; n++ {
+				for _, position := range []string{"first", "later"} {
+					log := &eventLog{}
+					var group []connect.Interceptor
+					want := ""
+					next := 1
+					var opts []connect.Option
+					if position == "later" {
+						opts = append(opts, connect.WithInterceptors(&logIcpt{id: next, log: log}))
+						want = "1,"
+						next++
+					}
+					for i := 0; i < n; i++ {
+						group = append(group, &logIcpt{id: next, log: log})
+						want += strconv.Itoa(next) + ","
+						next++
+					}
+					opts = append(opts, connect.WithInterceptors(group...), connect.WithInterceptors(&logIcpt{id: next, log: log}))
+					want += strconv.Itoa(next)
+					got := run(side, kind, opts, log)
+					c.Count("group-size-probe")
+					if got != want {
+						c.Fail("icpt-order", fmt.Sprintf("a WithInterceptors group of %d as the %s group, %s, %s call", n, position, side, kind), got, "every declared interceptor wraps the call, in declaration order: want "+want)
+					}
+				}
 			}
 		}
 	}
